@@ -899,7 +899,7 @@ pub fn run_check(prop: &str, tier: &str, workloads_override: Option<u64>, dump: 
     let ctx = Ctx { paths, known, seed, verif_dir: verif_dir.clone(), findings: load_findings(&verif_dir) };
     let (mut workloads, envs) = match (prop, tier) {
         ("C21", "thorough") => (40_000u64, 4u64),
-        ("C21", _) => (1200, 3),
+        ("C21", _) => (3000, 3),
         ("C22", "thorough") => (20_000, 4),
         ("C22", _) => (600, 2),
         ("C23", "thorough") => (25_000, 8),
@@ -1192,6 +1192,9 @@ pub fn replay(path: &str) -> i32 {
                 let head: Vec<&str> = o.stderr.lines().filter(|l| !l.trim_start().starts_with("at ") && !l.trim_start().chars().next().map_or(false, |c| c.is_ascii_digit())).take(6).collect();
                 if !head.is_empty() {
                     println!("  stderr: {}", head.join(" | "));
+                }
+                if std::env::var("SIM_DUMP_STDERR").is_ok() {
+                    println!("---- full stderr of run {i} ----\n{}\n----", o.stderr);
                 }
             }
             if v.class != rp.violation.class {
